@@ -720,6 +720,7 @@ fn ipaddr_variant(a: &std::net::IpAddr) -> &'static str { match a { std::net::Ip
 /// model on the bytes).
 fn value_oracle<T: Serial + Deserial + std::fmt::Debug>(en: &str, label: &str, id: Option<u32>, v: &T, relabel: &dyn Fn(&T) -> String) {
     let mut why: Vec<String> = vec![];
+    let mut debug_equal = true;
     let bytes = match guarded(|| to_bytes(v)) { Ok(b) => b, Err(e) => { println!("{}", json!({"k": "variant", "enum": en, "variant": label, "ok": false, "why": [format!("encoder panicked: {}", e)], "hex": ""})); return; } };
     set_case(en, &hex(&bytes));
     let mut with_junk = bytes.clone();
@@ -731,13 +732,22 @@ fn value_oracle<T: Serial + Deserial + std::fmt::Debug>(en: &str, label: &str, i
             Ok(Err(e)) => why.push(format!("{}: decode(encode v) failed: {}", name, e)),
             Ok(Ok(v2)) => {
                 if cur.position() as usize != bytes.len() { why.push(format!("{}: consumed {} of {} bytes", name, cur.position(), bytes.len())); }
-                if format!("{:?}", v2) != format!("{:?}", v) { why.push(format!("{}: decode(encode v) != v", name)); }
+                // Debug forms of freshly built curve points / keys are not normalised, so value equality is
+                // observed as: identical re-encoding (below), same variant, and a stable Debug form from the
+                // first decode on (decode . encode is the identity on decoded values).
+                if format!("{:?}", v2) != format!("{:?}", v) { debug_equal = false; }
+                let b2 = guarded(|| to_bytes(&v2)).unwrap_or_default();
+                let mut c3 = std::io::Cursor::new(&b2[..]);
+                match guarded(|| T::deserial(&mut c3)) {
+                    Ok(Ok(v3)) => if format!("{:?}", v3) != format!("{:?}", v2) { why.push(format!("{}: decode(encode v) is not stable under a second round trip", name)); },
+                    _ => why.push(format!("{}: second decode failed", name)),
+                }
                 if relabel(&v2) != label { why.push(format!("{}: decoded as variant {}", name, relabel(&v2))); }
                 if guarded(|| to_bytes(&v2)).ok().as_deref() != Some(&bytes[..]) { why.push(format!("{}: re-encoding differs", name)); }
             }
         }
     }
-    println!("{}", json!({"k": "variant", "enum": en, "variant": label, "id": id, "ok": why.is_empty(), "why": why, "hex": hex(&bytes), "len": bytes.len()}));
+    println!("{}", json!({"k": "variant", "enum": en, "variant": label, "id": id, "ok": why.is_empty(), "why": why, "hex": hex(&bytes), "len": bytes.len(), "debug_equal": debug_equal}));
 }
 
 fn variants(seed: u64, reps: u64) {
